@@ -109,8 +109,8 @@ class SpecMixin:
         env.update(st.loc.get("$oldenv", {}))
         s_old = old.with_loc(env)._clone(pc=st.pc)
         v = self.spec_eval(s_old, e.args[0], env, getattr(self, "spec_polarity", "prove"))
-        if isinstance(v, Ref):
-            raise SpecError("old() must denote a value, not a heap reference (write old(x.f), not old(x).f)")
+        # a heap reference denotes the same cell in both states: old(x) may only be compared by identity or
+        # dereferenced inside another old(...)
         yield st, v
 
     def form_implies(self, e, st):
@@ -200,6 +200,10 @@ class SpecMixin:
             k, p, v = _map_entries(st, m)[idx]
             yield st, (p if name == "map_has" else v)
             return
+        if name == "gcount":
+            cur = st.ghost.get("#" + args[0].s)
+            yield st, (cur[0] if cur else self.intval(0))
+            return
         if name == "now":
             yield st, z3.Real("$now")
             return
@@ -261,6 +265,10 @@ class SpecMixin:
                 yield out
             if trace:
                 print(f"[trace] contract {qual}: {n} outcome(s); pc feasible before: {self.feasible(s1.pc)}", flush=True)
+            if n == 0 and self.feasible(s1.pc):
+                # a call always has some outcome: losing every path here would make the caller's obligations vacuous
+                raise SpecError(f"the contract of {qual} admits no outcome at a reachable call site (contradictory "
+                                f"ensures / result shape): caller {st.loc.get('$qual')}")
 
     def result_shape(self, c, f):
         if c.returns is not None:
